@@ -740,6 +740,8 @@ func main() {
 	sb.WriteString("def gen : GenTables := { fromInt := genFromInt, fromStr := genFromStr, fromFloat := genFromFloat, fromBool := genFromBool }\n\n")
 	memos := memoFacts(a.Repo)
 	writeMemos(&sb, memos)
+	cpw := callPathWrites(a.Repo)
+	writeCallPath(&sb, cpw)
 	sb.WriteString("/-- places where the source no longer has the syntactic shape the translator understands -/\ndef shapeChanged : List String := [")
 	for i, s := range shape {
 		if i > 0 {
@@ -753,6 +755,9 @@ func main() {
 		os.Exit(1)
 	}
 	fmt.Printf("C17GoKinds: in=%d/%d out=%d/%d gen=%d/%d/%d/%d memos=%d shapeChanged=%d\n", len(inFn), len(inM), len(outFn), len(outM), len(gInt), len(gStr), len(gFlt), len(gBool), len(memos), len(shape))
+	for _, w := range cpw {
+		fmt.Printf("  call-path write: %s\n", w)
+	}
 	for _, m := range memos {
 		fmt.Printf("  memo: %s keyBy=%s datum=%s\n", m.site, m.keyBy, m.datum)
 	}
